@@ -79,6 +79,50 @@ func (c *Ctx) lockHeldAt(f *ssa.Function, at ssa.Instruction, mpath string, need
 			return true
 		}
 	}
+	// a "…Locked" helper: an unexported function that takes no lock of its own and is only ever called (statically) with
+	// the mutex held in the required mode — by every caller, on the same object
+	if f.Object() != nil && !f.Object().Exported() && f.Parent() == nil && strings.HasPrefix(mpath, "$") && c.lockDepth < 2 {
+		n := 0
+		for _, g := range c.Funcs {
+			if g == f {
+				continue
+			}
+			takenAsValue := false
+			forEachInstr(g, func(in ssa.Instruction) {
+				var ops []*ssa.Value
+				for _, op := range in.Operands(ops) {
+					if *op == ssa.Value(f) {
+						if cl, isC := in.(ssa.CallInstruction); !isC || cl.Common().Value != ssa.Value(f) {
+							takenAsValue = true
+						}
+					}
+				}
+			})
+			if takenAsValue {
+				return false
+			}
+			for _, cl := range callsTo(g, f) {
+				// the mutex in the caller's frame: the helper's parameter replaced by the call's argument
+				k := strings.IndexAny(mpath[1:], ".[")
+				pi, rest := mpath[1:], ""
+				if k >= 0 {
+					pi, rest = mpath[1:1+k], mpath[1+k:]
+				}
+				idx := 0
+				if _, err := fmt.Sscanf(pi, "%d", &idx); err != nil || idx >= len(cl.Call.Args) {
+					return false
+				}
+				c.lockDepth++
+				held := c.lockHeldAt(g, cl, c.Path(cl.Call.Args[idx], nil)+rest, needExclusive)
+				c.lockDepth--
+				if !held {
+					return false
+				}
+				n++
+			}
+		}
+		return n > 0
+	}
 	return false
 }
 
